@@ -178,6 +178,11 @@ func (in *Interp) dispatch(s *State, th *Thread, f *Frame, c *callee, at ssa.Ins
 		finish(v)
 		return nil
 	}
+	if in.cfg.SkipFuncs[name] {
+		in.St.Notes["skipped:"+name]++
+		finish(in.defaultResult(fn.Signature))
+		return nil
+	}
 	if fn.Pkg != nil && in.isBlackhole(fn.Pkg.Pkg.Path()) {
 		switch name {
 		case "github.com/ozontech/seq-db/logger.Panic":
